@@ -9,7 +9,7 @@
    closed, not expired, not unsubscribed and below the delivery-failure limit; an entry of
    [st_table] is an accepted subscription that housekeeping / shutdown has not dropped. *)
 From Coq Require Import List ZArith Bool String Lia.
-From SDC Require Import Eventing.Gen_Consts Eventing.Model Eventing.Proofs.
+From SDC Require Import Eventing.Gen_Consts Eventing.Model Eventing.Proofs Eventing.FanOut Eventing.FanOutProofs.
 Import ListNotations.
 Open Scope Z_scope.
 Open Scope list_scope.
@@ -195,6 +195,131 @@ Print Assumptions C08_fresh_subscription_live.
 Theorem C08_check_twin_holds : forall c ops, check_C08 c init ops = true.
 Proof. exact (fun c ops => check_C08_holds c ops init). Qed.
 Print Assumptions C08_check_twin_holds.
+
+(* --- the fan-out of one report, fine-grained (Eventing/FanOut.v) ---------------------------------------------
+   send_to_subscribers is not atomic: the receiver list is built once, then the receivers are served one after
+   the other (blocking posts) while other threads subscribe, renew, unsubscribe, the clock runs, housekeeping
+   and other senders work.  [xfinal c xs] is the provider state after a history [xs] of plain operations and
+   such fine-grained reports ([Fan a outs order inter]: [order] = iteration order of the subscription table,
+   [inter] = for the n-th hand-off of the report the operations performed while that delivery is in progress;
+   with an async manager the operations that need the table lock wait until the fan-out is over).
+   [fan_visits] lists, for every receiver in turn, the provider state at the moment it is served
+   ([v_st], the send time) and whether a notification was handed to its client ([v_hand]). *)
+
+(* every entry of the receiver list is served exactly once, in order; the list holds the ids of the table
+   entries whose filter matches, taken when the fan-out starts (a subscription accepted later is not in it) *)
+Theorem C08_fanout_serves_each_receiver_once : forall c xs a outs order inter,
+  let st := xfinal c xs in
+  map v_k (fan_visits c st a outs order inter) = receivers st a order /\
+  forall k, In k (receivers st a order) <->
+            In k order /\ exists s, In s (st_table st) /\ s_id s = k /\ matches (s_filter s) a = true.
+Proof.
+  intros c xs a outs order inter st. split.
+  - apply fan_keys.
+  - intros k. apply receivers_spec. exact (proj1 (Inv_xfinal c xs)).
+Qed.
+Print Assumptions C08_fanout_serves_each_receiver_once.
+
+(* delivery iff alive AT SEND TIME: a receiver is handed the notification iff, at the moment its turn comes,
+   it is in the table, not closed, not expired, not unsubscribed and below the failure limit -- whatever
+   happened while the earlier receivers of the same report were served *)
+Theorem C08_fanout_delivery_iff_alive_at_send_time : forall c xs a outs order inter v,
+  let st := xfinal c xs in
+  In v (fan_visits c st a outs order inter) ->
+  ((exists h, v_hand v = Some h) <->
+   exists s, In s (st_table (v_st v)) /\ s_id s = v_k v /\ live c s (st_now (v_st v))) /\
+  (forall m obs, v_hand v = Some (m, obs) ->
+   exists s, In s (st_table (v_st v)) /\ s_id s = v_k v /\ m = Notify (v_k v) a (s_notify s)).
+Proof. exact (fun c xs a outs order inter v => fan_visit_spec c (xfinal c xs) a outs order inter v (Inv_xfinal c xs)). Qed.
+Print Assumptions C08_fanout_delivery_iff_alive_at_send_time.
+
+(* the sync manager: an Unsubscribe of j handled while an earlier receiver is being served (answered with
+   UnsubscribeResponse, or with a fault because j was unknown already) keeps the report from every later
+   receiver entry j of this fan-out *)
+Theorem C08_fanout_unsubscribe_during_delivery : forall c xs a outs order inter j pre v post,
+  let st := xfinal c xs in
+  c_sync c = true -> j < st_next st ->
+  fan_visits c st a outs order inter = pre ++ v :: post ->
+  (exists h, v_hand v = Some h) ->
+  In (Unsubscribe (Id j)) (nth (List.length (hands_of pre)) inter []) ->
+  Forall (fun v' => v_k v' = j -> v_hand v' = None) post.
+Proof.
+  exact (fun c xs a outs order inter j pre v post S L E =>
+           fan_unsub_blocks c j a outs (receivers (xfinal c xs) a order) inter (xfinal c xs) [] pre v post
+                            (Inv_xfinal c xs) S L E).
+Qed.
+Print Assumptions C08_fanout_unsubscribe_during_delivery.
+
+(* an id that is not (or no longer) known when the fan-out starts is not known at any send time of it, is
+   handed nothing, and is still unknown when the fan-out and the waiting operations are through *)
+Theorem C08_fanout_unknown_stays_unknown : forall c xs a outs order inter j,
+  let st := xfinal c xs in
+  j < st_next st -> ~ known st (Id j) ->
+  (forall v, In v (fan_visits c st a outs order inter) ->
+     ~ known (v_st v) (Id j) /\ (v_k v = j -> v_hand v = None)) /\
+  ~ known (fst (fan_step c st a outs order inter)) (Id j).
+Proof. exact (fun c xs a outs order inter j => fan_step_gone c (xfinal c xs) a outs order inter j (Inv_xfinal c xs)). Qed.
+Print Assumptions C08_fanout_unknown_stays_unknown.
+
+(* the atomic [Report] step of the coarse model is the special case "nothing interleaved, receivers in table
+   order" of the fine-grained one: same state afterwards, same messages *)
+Theorem C08_fanout_without_interleaving_is_the_atomic_report : forall c xs a outs,
+  let st := xfinal c xs in
+  let order := map s_id (st_table st) in
+  fst (fan_step c st a outs order []) = fst (step c st (Report a outs)) /\
+  map fst (fst (snd (fan_step c st a outs order []))) = msgs_of (step c st (Report a outs)) /\
+  snd (snd (fan_step c st a outs order [])) = [].
+Proof. exact (fun c xs a outs => fan_step_plain c (xfinal c xs) a outs (proj1 (Inv_xfinal c xs))). Qed.
+Print Assumptions C08_fanout_without_interleaving_is_the_atomic_report.
+
+(* the theorems about single operations hold after fine-grained histories as well (they are proved for every
+   state satisfying the invariant); the two the statement names: *)
+Theorem C08_fine_histories_extend_coarse : forall c ops, xfinal c (map Plain ops) = final c ops.
+Proof. exact xfinal_plain. Qed.
+Print Assumptions C08_fine_histories_extend_coarse.
+
+Theorem C08_delivery_iff_after_fine_history : forall c xs a outs k b dest,
+  let st := xfinal c xs in
+  In (Notify k b dest) (msgs_of (step c st (Report a outs))) <->
+  b = a /\ exists s, In s (st_table st) /\ s_id s = k /\ dest = s_notify s /\
+                     live c s (st_now st) /\ matches (s_filter s) a = true.
+Proof. exact (fun c xs => delivery_iff c (xfinal c xs)). Qed.
+Print Assumptions C08_delivery_iff_after_fine_history.
+
+Theorem C08_stop_exactly_one_end_after_fine_history : forall c xs outs,
+  let st := xfinal c xs in
+  let ms := msgs_of (step c st (Stop true outs)) in
+  (forall s, In s (st_table st) -> live c s (st_now st) ->
+     count_occ msg_eq_dec ms (End (s_id s) (fst (end_dest s)) (snd (end_dest s))) = 1%nat /\
+     (forall d e, In (End (s_id s) d e) ms -> (d, e) = end_dest s)) /\
+  (forall k d e, In (End k d e) ms ->
+     exists s, In s (st_table st) /\ s_id s = k /\ live c s (st_now st) /\ (d, e) = end_dest s) /\
+  (forall k a d, ~ In (Notify k a d) ms) /\
+  msgs_of (step c st (Stop false outs)) = [] /\
+  st_table (fst (step c st (Stop true outs))) = [] /\ st_table (fst (step c st (Stop false outs))) = [].
+Proof. exact (fun c xs outs => stop_exactly_one_end c (xfinal c xs) outs (proj1 (Inv_xfinal c xs))). Qed.
+Print Assumptions C08_stop_exactly_one_end_after_fine_history.
+
+Theorem C08_fine_check_twin_holds : forall c xs, xcheck c init xs = true.
+Proof. exact (fun c xs => xcheck_holds c xs init (Inv_init c)). Qed.
+Print Assumptions C08_fine_check_twin_holds.
+
+(* non-vacuity: two subscribers of the same report; the second one's Unsubscribe is handled while the first
+   one is being served: with the table order 0,1 subscriber 1 gets nothing, with the order 1,0 it had been served
+   already; the clock passing subscriber 0's expiry during the delivery to 1 silences 0 *)
+Example C08_fanout_nonvacuous :
+  let q0 := mkReq true true (Some [act 2]) (Some 81) 0 None in
+  let q1 := mkReq true true (Some [act 2]) None 1 None in
+  let st := final default_cfg [Subscribe q0; Subscribe q1] in
+  snd (fan_step default_cfg st (act 2) [OOk; OOk] [0; 1] [[Unsubscribe (Id 1)]])
+    = ([(Notify 0 (act 2) 0, [(RUnsub, [])])], []) /\
+  snd (fan_step default_cfg st (act 2) [OOk; OOk] [1; 0] [[Unsubscribe (Id 1)]])
+    = ([(Notify 1 (act 2) 1, [(RUnsub, [])]); (Notify 0 (act 2) 0, [])], []) /\
+  snd (fan_step default_cfg st (act 2) [OOk; OOk] [1; 0] [[Advance 81]])
+    = ([(Notify 1 (act 2) 1, [(RNone, [])])], []) /\
+  msgs_of (step default_cfg (fst (fan_step default_cfg st (act 2) [OOk; OOk] [0; 1] [[Unsubscribe (Id 1)]]))
+                (Stop true [])) = [End 0 0 false].
+Proof. vm_compute. repeat split; reflexivity. Qed.
 
 (* non-vacuity: two subscribers; one unsubscribes, a report reaches only the other; a delivery
    failure silences it; shutdown then ends nobody; and an earlier shutdown ends exactly the live one *)
